@@ -75,7 +75,8 @@ MANIFEST = dict(
          'validated after the checksum is stored is refuted for every checksum function, archive, entry and data (the entry keeps the new '
          'checksum on the old bytes, verify() is false, a retry with a valid index stores nothing: c13_late_index_check_refuted). The split '
          'statement may be os.path.splitext (SplitExt, meaning = posixpath.splitext), which is not accepted and refuted by the dot-file witness '
-         '(c13_name_forms_splitext_refuted). filenames / fileinfos executed with their extension / folder arguments given or defaulted give '
+         '(c13_name_forms_splitext_refuted); a block reader whose inner loop rewinds relative to the first block (RBlockLoopRel) has a meaning and is '
+         'refuted at 128 characters (c13_nullstr_block_rel_refuted). filenames / fileinfos executed with their extension / folder arguments given or defaulted give '
          'walk descriptions whose meaning list_walk is, for dicts without duplicate keys, exactly the entries of the default walk with that '
          'extension whose folder name starts with the argument, in order (c13_listing_with_arguments_is_filter); extract_all is the full walk '
          'writing each entry under its listed name with the bytes of read() (c13_extract_all_writes_every_file). c13_property_r5 collects the '
